@@ -431,6 +431,22 @@ theorem C03_registry_sound (h : Hdr) (es : List Event) (y c : Nat)
     (hr : (runState h.init es).reg y = some c) : pairOf ((runState h.init es).ctl c) = (true, some y) :=
   reachable_sound h.init (by intro y c hh; simp [Hdr.init, Srv.init] at hh) es y c hr
 
+/-- **challenge freshness.**  After EVERY history (of any length: hundreds of phase-1 requests on any connections
+included), a challenge the server writes next is a value that no connection ever received before, that is pending on no
+connection, and that was never accepted — so a response recorded for an earlier challenge can never match a later one. -/
+theorem C03_challenges_fresh (h : Hdr) (es : List Event) (e : Event) (n : Nat)
+    (hr : (step (runState h.init es) e).2 = .ch n) :
+    n ∉ (runState h.init es).env.seen ∧ (∀ c, pend ((runState h.init es).ctl c) ≠ some n) ∧
+    n ∉ (runState h.init es).accepted := by
+  obtain ⟨I, A⟩ := reachable_invs h.init (Inv.initial h.now h.ips h.nc h.burst h.secs)
+    (AccInv.initial h.now h.ips h.nc h.burst h.secs) es
+  have sp := stepCore_spec (runState h.init es) e
+  obtain ⟨hn, _⟩ := sp.rch n hr
+  refine ⟨fun hm => ?_, fun c hc => ?_, fun hm => ?_⟩
+  · have := I.i8s n hm; omega
+  · have := I.i1 c n hc; omega
+  · have := A.a3 n hm; omega
+
 /-! ## Non-vacuity -/
 
 def hdr2 : Hdr := ⟨1000, [0, 1], 2, 20, []⟩
@@ -505,6 +521,16 @@ example : holds hdr2 [.banp 0, .bans 0, .fc 0 .control]
     [⟨.na, ⟨[none, none], [none, none], [true, false], [false, false]⟩⟩,
      ⟨.na, ⟨[none, none], [none, none], [false, false], [false, false]⟩⟩,
      ⟨.new 2, ⟨[some ⟨true, some 2, none⟩, none], [none, none, some 0], [false, false], [false, false]⟩⟩] = false := by decide
+
+/-- the predicate rejects an observation in which the server hands out a challenge value a second time -/
+example : holds hdr2 [.hs 0 .control (.idx 0) .none, .hs 1 .control (.idx 0) .none]
+    [⟨.ch 0, ⟨[some ⟨false, none, some 0⟩, none], [none, none], [false, false], [false, false]⟩⟩,
+     ⟨.ch 0, ⟨[some ⟨false, none, some 0⟩, some ⟨false, none, some 0⟩], [none, none], [false, false], [false, false]⟩⟩] = false := by
+  decide
+
+/-- 40 phase-1 requests yield 40 different challenges -/
+example : ((run hdr2.init (List.replicate 40 (.hs 1 .control (.idx 0) .none))).map (·.resp)) =
+    (List.range 40).map .ch := by decide +kernel
 
 /-- the predicate is not trivially true: an observation in which the replayed response is accepted is rejected -/
 example : holds hdr2 [.hs 0 .control (.idx 0) .none, .hs 0 .control (.idx 0) (.hmac 0 (.last 0)),
